@@ -695,4 +695,16 @@ impl Connection {
     pub fn validate(&self) -> Result<(), Error> {
         self.0.validate()
     }
+
+    /// Verification hook: queue an arbitrary reliable frame for transmission, so that a test
+    /// can play a misbehaving (but authenticated) peer against an unmodified receiver.
+    #[cfg(genmeta_gm_quic_verif)]
+    pub fn verif_send_reliable_frame(
+        &self,
+        frame: qbase::frame::ReliableFrame,
+    ) -> Result<(), Error> {
+        use qbase::frame::io::SendFrame;
+        self.0
+            .try_map_components(|core_conn| core_conn.reliable_frames.send_frame([frame]))
+    }
 }
